@@ -290,6 +290,15 @@ def rule_xcov(repo, tier):
             res.inst({'function': f.fq, 'cov': src(c)[:60], 'sets': [src(r)[:70] if r is not None else None for r in (ra, rb)]},
                      (f.fq, norm_construct(c, f.node)))
             if ra is None or rb is None:
+                # not a deviation at all: the sigma points themselves are handed over (one-pass raw-moment form  sum w a b^T - mean_a mean_b^T).  Equal in exact
+                # arithmetic, but a difference of numbers of size |x|^2 for a result of size sigma^2: for states far from the origin the covariance loses its digits
+                # and its positive semidefiniteness.  The documented form sums outer products of DEVIATIONS from the weighted mean.
+                raw = [x for x, r in ((a, ra), (b, rb)) if r is None and sigma_root(x) is not None]
+                if raw:
+                    res.add(Finding('C13.XCOV', f, 'the covariance `%s` is formed from the sigma points themselves (`%s`), not from their deviations from the weighted mean: the '
+                                    'raw-moment form cancels catastrophically for states that are large compared with their spread' % (src(c)[:60], src(raw[0])[:40]), node=c,
+                                    construct='raw sigma points|' + norm_construct(c, f.node)))
+                    continue
                 res.unresolved += 1
                 continue
             if dump(ra) != dump(rb):
@@ -767,7 +776,7 @@ def rules(repo, tier):
     from ..callsig import rule_callsig
     from ..docsig import rule_docsig
     from ..axisdefault import rule_axisdefault
-    return list(_rules_core(repo, tier)) + [rule_memo(repo, 'C13.MEMO', 'history independence: nothing computed from the contents of a tensor argument is kept '
+    return list(_rules_core(repo, tier)) + __import__('sa.core', fromlist=['x']).reid([__import__('sa.rules.c15', fromlist=['x']).rule_lin(repo), __import__('sa.rules.c15', fromlist=['x']).rule_pure(repo), __import__('sa.rules.c15', fromlist=['x']).rule_snap(repo)], 'C13') + [rule_memo(repo, 'C13.MEMO', 'history independence: nothing computed from the contents of a tensor argument is kept '
                                                       'under the identity, address or version of that tensor, in module-level storage, or published from a generator '
                                                       'before it is complete - a later call with the same object and other contents must not be answered from it',
                                                       ['pypose.module.ekf', 'pypose.module.ukf', 'pypose.module.pf', 'pypose.module.dynamics'], floor=3),
